@@ -4,6 +4,7 @@ mod case;
 mod catalogue;
 mod common;
 mod conform;
+mod layout;
 mod refops;
 mod rt;
 mod subject;
@@ -15,6 +16,8 @@ fn main() {
     match prop.as_str() {
         "C15" => conform::run_c15(vp_core::Ctx::from_env("C15")),
         "C12" => conform::run_c12(vp_core::Ctx::from_env("C12")),
+        "C14" => layout::run_c14(vp_core::Ctx::from_env("C14")),
+        "C13" => layout::run_c13(vp_core::Ctx::from_env("C13")),
         _ => vp_core::machinery_error("unknown property (mc-ops serves C12 C13 C14 C15)"),
     }
 }
